@@ -13,9 +13,9 @@ the models were written against. Renaming a variable or rewriting a condition le
 added, removed or reordered statement, an added early return or fast path, a loop gaining a
 condition, a statement moving into or out of a goroutine makes the lemma of that body fail.
 
-`doCode_sound`, `dcCode_sound`, `map_wrappers_structural` (C13) and `stream_code_sound`,
-`iter_code_sound` (C14, MapStream clauses of C08/C09) are stated `under` these ties, so every property
-theorem of these components depends on them.
+The C13 soundness tactics `pardo_sound`, `wrapper_sound` (`Proofs/ParDoBasic.lean`, `Proofs/ParWrap.lean`;
+ties in `Proofs/SkeletonParDo.lean`) and `stream_code_sound`, `iter_code_sound` (C14, MapStream clauses of
+C08/C09) go `under` these ties, so every property theorem of these components depends on them.
 -/
 namespace Juniper.Proofs.SkeletonPar
 open Juniper.Gen.SkeletonPar
